@@ -79,13 +79,16 @@ CHECKS = {
        'base64 of <= 3/4 symbolic bytes through the instrumented pysasl mechanism and an ASCII-exact SASLprep model, command lines with '
        '4000-12000 nested constructs plus a symbolic tail, stored messages with thousands of nested subject prefixes / MIME levels, and '
        'stored messages whose headers are drawn from representatives of the email package\'s outcome classes, each followed by FETCH of '
-       'every attribute and SEARCH of every header/date/text key. SequenceSet._get_range: for unbounded symbolic numbers no element '
+       'every attribute and SEARCH of every header/date/text key (message bodies: plain, multipart with empty parts, bad base64 / '
+       'quoted-printable); 16 command shapes with a run of 5000 digits where a number is expected; SEARCH CHARSET UTF-8 with 1-3 symbolic '
+       'bytes in every string-valued key except BODY/TEXT, executed against a mailbox. SequenceSet._get_range: for unbounded symbolic numbers no element '
        'expands to more numbers than the mailbox holds.',
   note=TRUST + 'Codecs are exact models validated against CPython; strptime and unknown codec names are stubs (documented '
        'contract). The text of message headers is parsed by the standard library email package, which is not encoded: header values '
        'are concrete representatives (absent / well-formed / degenerate / makes the package raise), chosen by the engine - no claim '
        'for other header texts. Recursion limit scaled to 2500 under instrumentation (depths chosen far beyond). Outside: lines near '
-       '64 KiB. One known finding (unknown Content-Transfer-Encoding + FETCH BINARY).',
+       '64 KiB, BODY/TEXT search strings (re.escape of symbolic bytes). Two known findings (FETCH BINARY of a part with an unknown '
+       'Content-Transfer-Encoding or with undecodable base64: decoded lazily while the response is written).',
   technique='symbolic execution of the real parsers with z3 (path exhaustion, loop-fuel monitor), bounded by buffer length'),
  'C07': dict(
   text='The real response serialisers (String.build, QuotedString/LiteralString, AString/Mailbox + modutf7_encode, List, '
@@ -115,7 +118,9 @@ CHECKS = {
        'and failed or credential-less attempts leave the connection unauthenticated; one and two consecutive attempts, also on a new connection '
        'to the same server. On the wire: AUTHENTICATE PLAIN on the real connection loop with the base64 of <= 4 (quick) / 5 (thorough) symbolic '
        'bytes (plus the one-character-authzid shape at 5 bytes) through the instrumented pysasl PLAIN mechanism and the ASCII-exact SASLprep '
-       'model, followed by a LIST probe: authenticated and acting as exactly the identity RFC 4616 + the property allow for those bytes.',
+       'model, followed by a LIST probe: authenticated and acting as exactly the identity RFC 4616 + the property allow for those bytes. '
+       'lookalike_accounts: two accounts whose names differ by one arbitrary code point, the owner of one asks to act as the other, with '
+       'the real SASLprep step modelled (ASCII exact, RFC 3454 B.1 "mapped to nothing" exact).',
   note=TRUST + 'Stubs: hash = cleartext compare, secrets.compare_digest = equality; in the attempts harness password_prep = identity and '
        'the SASL mechanism hands arbitrary credentials to do_authenticate. Outside: password hashing, the LOGIN SASL mechanism, ManageSieve '
        '(ignores the authzid), maildir/redis user stores.',
@@ -207,8 +212,9 @@ CHECKS = {
        '\\Recent flag, APPEND elsewhere, COPY into the mailbox, STORE +/-/= \\Recent, NOOP) by 2-3 sessions on the real session '
        'layer and dict backend with a symbolic UID base and symbolic sequence numbers: a ghost map records every selection that '
        'ever reported a UID as \\Recent; at most one read-write selection per UID, never a read-only one, never claimed and '
-       'still stored, first read-write selector gets all unclaimed, RECENT numbers equal the \\Recent messages in the view, '
-       'STORE cannot change it.',
+       'still stored, first read-write selector gets all unclaimed and every message no selection was ever told is \\Recent, RECENT '
+       'numbers equal the \\Recent messages in the view, STORE cannot change it. Also over two mailboxes (SELECT/EXAMINE of either, COPY '
+       'to either) and from the pre-state "a session has the mailbox selected and another party delivered into it".',
   note=TRUST + 'Selections are kept alive by their connection state (no GC timing). Outside: maildir new/ directory.',
   technique='bounded model checking by symbolic execution of the real session layer (z3), ghost ownership map'),
  'C19': dict(
